@@ -486,6 +486,7 @@ Section Pair.
     (* first: the dust position, if any, is deleted and its shares are what has to leave the validator *)
     eapply hoare_bind with (Q1 := fun dsr s => JD (- hitZ v0 d0 dsr) s /\ PV v0 vi s).
     { destruct (kget (delegations s0) [del; v0; d0]) as [d|] eqn:Eg; [|apply hoare_ret; intros s ->; unfold hitZ; destruct (hit v0 d0); auto].
+      destruct (del_tokens_with_shares (d_shares d) vi a <? 0); [apply hoare_panic; auto|].
       destruct (del_tokens_with_shares (d_shares d) vi a =? 0); [|apply hoare_ret; intros s ->; unfold hitZ; destruct (hit v0 d0); auto].
       eapply hoare_bind with (Q1 := fun _ s => JD (- hitZ v0 d0 (d_shares d)) s /\ PV v0 vi s).
       - unfold del_delegation. apply hoare_modify. intros s ->. destruct HJ0 as (Hb & Hn & Hsum). split; [|eapply PV_f; [|exact HP0]; reflexivity].
@@ -557,7 +558,8 @@ Section Pair.
     { unfold stored_shares, d. destruct (kget (delegations s0) [del; v0; d0]); reflexivity. }
     apply (hoare_pre _ _ (fun s => (JD 0 s /\ PV v0 vi1 s) /\ DF (delegations s0) s)); [intros s ->; split; [auto | reflexivity]|].
     eapply hoare_bind with (Q1 := fun sh s => ((JD 0 s /\ PV v0 vi1 s) /\ DF (delegations s0) s) /\ sh <= d_shares d); [apply hoare_validate|].
-    intros sh. match goal with |- hoare _ (if ?b then _ else _) _ _ => destruct b end; [apply hoare_fail; auto|].
+    intros sh. match goal with |- hoare _ (if ?b then _ else _) _ _ => destruct b end; [apply hoare_panic; auto|].
+    match goal with |- hoare _ (if ?b then _ else _) _ _ => destruct b end; [apply hoare_fail; auto|].
     eapply hoare_bind; [apply hoare_opt_or_panic|].
     intros vsr; cbv beta. set (a' := set_a_vshares (a_vshares a - vsr) (set_a_tokens (a_tokens a - amt) a)).
     apply (hoare_pre _ _ (fun s => ((JD 0 s /\ PV v0 vi1 s) /\ DF (delegations s0) s) /\ sh <= d_shares d)); [intros s [H _]; exact H|].
@@ -730,7 +732,8 @@ Section Pair.
         destruct (claim_validator_rewards dst dvi s); auto. destruct H1; auto. }
     intros dvi1.
     eapply hoare_bind with (Q1 := fun sh s => ((JD 0 s /\ PV src svi1 s /\ PV dst dvi1 s) /\ SS K X s) /\ sh <= d_shares sd); [apply hoare_validate|].
-    intros sh. match goal with |- hoare _ (if ?b then _ else _) _ _ => destruct b end; [apply hoare_fail; auto|].
+    intros sh. match goal with |- hoare _ (if ?b then _ else _) _ _ => destruct b end; [apply hoare_panic; auto|].
+    match goal with |- hoare _ (if ?b then _ else _) _ _ => destruct b end; [apply hoare_fail; auto|].
     eapply hoare_bind with (Q1 := fun _ s => ((JD 0 s /\ PV src svi1 s /\ PV dst dvi1 s) /\ SS K X s) /\ sh <= d_shares sd); [apply hoare_gets; auto|]. intros blocked.
     destruct blocked; [apply hoare_fail; auto|].
     eapply hoare_bind with (Q1 := fun _ s => ((JD 0 s /\ PV src svi1 s /\ PV dst dvi1 s) /\ SS K X s) /\ sh <= d_shares sd); [apply hoare_gets; auto|]. intros t.
